@@ -271,8 +271,19 @@ class World:
                                       destination=NAMES[0], signature='s', body=['x'])
         elif k == 3:         # Peer.Ping answered by the bus itself
             m = msg.MethodCallMessage(PATH, 'Ping', interface='org.freedesktop.DBus.Peer', destination=BUS)
-        else:                # a signal of the client's own, routed through the match rules
+        elif k == 4:         # a signal of the client's own, routed through the match rules
             m = msg.SignalMessage('/com/example/Obj', 'Changed', 'com.example.Iface', signature='u', body=[7])
+        else:                # every other method the bus exports (Hello again, GetId, RemoveMatch,
+            #                  GetConnectionUnixUser, the unimplemented ones): whatever it answers, names stay
+            skip = ('RequestName', 'ReleaseName', 'GetNameOwner', 'ListQueuedOwners')
+            meths = sorted(n for n in self.bus.stdIface.methods if n not in skip)
+            name = meths[(k - 5) % len(meths)]
+            sig = self.bus.stdIface.methods[name].sigIn or None
+            body = {None: None, 's': [RULES[0] if 'Match' in name else NAMES[0]], 'su': [NAMES[0], 0],
+                    'a{ss}': [{}]}.get(sig, None)
+            if sig is not None and body is None:
+                return
+            m = self.call_msg(name, sig, body)
         p.dataReceived(m.rawMessage)
 
     # -- observation of the live tables (for the correspondence with the model, S3, only)
@@ -807,7 +818,7 @@ def random_history(rng, length):
             hist.append('d%d' % c)
             conn.remove(c)
         elif r < 0.20:
-            hist.append('x%d,%d' % (c, rng.randrange(5)))
+            hist.append('x%d,%d' % (c, rng.randrange(20)))
         elif r < 0.64:
             hist.append('q%d,%d,%d' % (c, n, rng.choice(flagpool)))
         elif r < 0.80:
